@@ -6,7 +6,6 @@ use crate::math::num::RealNumber;
 pub type CategoricalFloat = u16;
 
 // pub struct CategoricalFloat(u16);
-const ERROR_MARGIN: f64 = 0.001;
 
 pub trait Categorizable: RealNumber {
     type A;
@@ -24,8 +23,9 @@ impl Categorizable for f32 {
     }
 
     fn is_valid(self) -> bool {
+        // a value is a category code only if it survives the round trip exactly
         let a = self.to_category();
-        (a as f32 - self).abs() < (ERROR_MARGIN as f32)
+        a as f32 == self
     }
 }
 
@@ -37,7 +37,8 @@ impl Categorizable for f64 {
     }
 
     fn is_valid(self) -> bool {
+        // a value is a category code only if it survives the round trip exactly
         let a = self.to_category();
-        (a as f64 - self).abs() < ERROR_MARGIN
+        a as f64 == self
     }
 }
